@@ -131,7 +131,7 @@ func init() {
 		}
 		alpha := append(writes, reads...)
 		params := storeParams("c02", vDS, vIDs)
-		depth, budget := 3, 90*time.Second
+		depth, budget := 3, 300*time.Second
 		if !r.Quick() {
 			depth, budget = 5, 40*time.Minute
 		}
